@@ -159,7 +159,22 @@ def base_family():
             {"name": "tags", "type": "set:int", "init": True, "default": True},
         ],
     }
-    return [big, keyed, keyed_default]
+    derived = {
+        "name": "Derived", "key": None, "overflow": None, "nested": [n_plain], "base": keyed,
+        "attrs": [
+            {"name": "extra_flag", "type": "int", "init": True, "default": True},
+            {"name": "more", "type": "list:int", "init": True, "default": False},
+            {"name": "sub", "type": "nested:0", "init": True, "default": False},
+        ],
+    }
+    derived_hidden = {
+        "name": "DerivedHidden", "key": None, "overflow": None, "nested": [], "base": keyed_default,
+        "attrs": [
+            {"name": "w", "type": "str", "init": True, "default": True},
+            {"name": "ghost", "type": "int", "init": False, "default": True},
+        ],
+    }
+    return [big, keyed, keyed_default, derived, derived_hidden]
 
 
 def random_nested(rng, i):
@@ -211,8 +226,9 @@ def random_class(rng, idx):
             n, t = pick(SET_NAMES), f"set:{elem}"
         if n is None:
             continue
-        init = rng.random() < 0.85
-        attrs.append({"name": n, "type": t, "init": init, "default": (not init) or rng.random() < 0.4})
+        init = rng.random() < 0.85 or t.startswith("nested")
+        dflt = ((not init) or rng.random() < 0.4) and not t.startswith("nested")
+        attrs.append({"name": n, "type": t, "init": init, "default": dflt})
     key = None
     if rng.random() < 0.35:
         cands = [a for a in attrs if a["type"] == "str" and a["init"]]
@@ -220,6 +236,19 @@ def random_class(rng, idx):
             key = rng.choice(cands)["name"]
     overflow = rng.choice([None, None, None, "overflow"])
     return {"name": f"R{idx}", "key": key, "overflow": overflow, "attrs": attrs, "nested": nested}
+
+
+def random_derived(rng, idx, base):
+    """A spec class deriving from `base`: own attributes with fresh names, no key/overflow of its own."""
+    used = {a["name"] for a in all_attr_descs(base)}
+    # (names chosen so that none is the singular of an inherited collection: that is C16's open finding D19)
+    pool = [n for n in ["p", "q", "r", "mark", "note", "ws", "zs"] if n not in used]
+    attrs = []
+    for n in rng.sample(pool, rng.randint(1, 3)):
+        t = "list:int" if n.endswith("s") else rng.choice(["int", "str"])
+        init = rng.random() < 0.85
+        attrs.append({"name": n, "type": t, "init": init, "default": (not init) or rng.random() < 0.5})
+    return {"name": f"D{idx}", "key": None, "overflow": None, "attrs": attrs, "nested": [], "base": base}
 
 
 def _key(desc):
@@ -237,6 +266,7 @@ def build_class(desc):
 
     spec_class, Attr = _sc["spec_class"], _sc["Attr"]
     nested = [build_class(n)[0] for n in desc["nested"]]
+    base = build_class(desc["base"])[0] if desc.get("base") else None
 
     def pytype(t):
         parts = t.split(":")
@@ -263,7 +293,7 @@ def build_class(desc):
             ns[a["name"]] = Attr(default=dflt, init=False)
         elif a["default"]:
             ns[a["name"]] = dflt
-    cls = type(desc["name"], (), ns)
+    cls = type(desc["name"], (base,) if base is not None else (), ns)
     opts = {"bootstrap": True}
     if desc.get("key"):
         opts["key"] = desc["key"]
@@ -276,7 +306,7 @@ def build_class(desc):
 
 def default_for(a):
     t = a["type"].split(":")[0]
-    return {"int": 7, "str": "dflt"}.get(t, None)
+    return {"int": 7, "str": "dflt", "list": [], "dict": {}, "set": set()}.get(t, None)
 
 
 # ---------------------------------------------------------------------------
@@ -290,27 +320,54 @@ ELEMENT_KINDS = {
 }
 
 
-def all_attrs(desc):
-    """`__spec_class__.attrs` order as documented: annotated attributes, then the overflow attribute."""
-    out = [(a["name"], a["init"]) for a in desc["attrs"]]
-    if desc.get("overflow") and desc["overflow"] not in [a["name"] for a in desc["attrs"]]:
-        out.append((desc["overflow"], True))
+def eff_key(desc):
+    return desc.get("key") or (eff_key(desc["base"]) if desc.get("base") else None)
+
+
+def eff_overflow(desc):
+    return desc.get("overflow") or (eff_overflow(desc["base"]) if desc.get("base") else None)
+
+
+def all_attr_descs(desc):
+    """Attribute descriptions in `__spec_class__.attrs` order: inherited ones first, then the class's own
+    annotated attributes, then the overflow attribute the class itself declares."""
+    out = list(all_attr_descs(desc["base"])) if desc.get("base") else []
+    names = [a["name"] for a in out]
+    for a in desc["attrs"]:
+        if a["name"] not in names:
+            out.append(a)
+            names.append(a["name"])
+    if desc.get("overflow") and desc["overflow"] not in names:
+        out.append({"name": desc["overflow"], "type": "dict:any", "init": True, "default": False})
     return out
+
+
+def all_attrs(desc):
+    return [(a["name"], a["init"]) for a in all_attr_descs(desc)]
+
+
+def effective(desc):
+    """The class as `with_spec_attrs_for` sees it (inherited attributes, key and overflow included)."""
+    if not desc.get("base"):
+        return desc
+    return {**desc, "attrs": [a for a in all_attr_descs(desc) if a["type"] != "dict:any" or a["name"] != eff_overflow(desc)],
+            "key": eff_key(desc), "overflow": eff_overflow(desc), "base": None}
 
 
 def nested_token(desc):
     if desc is None:
         return "-"
-    return f"{desc.get('overflow') or '_'};" + ",".join(f"{n}:{1 if i else 0}" for n, i in all_attrs(desc))
+    return f"{eff_overflow(desc) or '_'};" + ",".join(f"{n}:{1 if i else 0}" for n, i in all_attrs(desc))
 
 
 def methods_of(desc):
     """[(method name resolver, model kind, key token, nested desc or None, attr name or None)]"""
     out = []
     key_tok = "-"
-    if desc.get("key"):
-        ka = [a for a in desc["attrs"] if a["name"] == desc["key"]][0]
-        key_tok = f"{desc['key']}:{1 if ka['default'] else 0}"
+    k = eff_key(desc)
+    if k:
+        ka = [a for a in all_attr_descs(desc) if a["name"] == k][0]
+        key_tok = f"{k}:{1 if ka['default'] else 0}"
     out.append(("__init__", "init", key_tok, desc, None))
     out.append(("update", "update", "-", desc, None))
     out.append(("transform", "transform", "-", desc, None))
@@ -594,8 +651,8 @@ def receiver_for(cls, desc, method):
     if method in ("__init__", "__spec_class_init__"):
         return cls.__new__(cls)
     kw = {}
-    if desc.get("key"):
-        kw[desc["key"]] = "kv"
+    if eff_key(desc):
+        kw[eff_key(desc)] = "kv"
     return cls(**kw)
 
 
@@ -613,7 +670,9 @@ def real_lines(case):
         out = ["impl", head_line(fn)]
         impl = fn.__globals__["implementation"]
         impl_sig = inspect.signature(impl)
-        defaults = fn.__globals__["DEFAULTS"]
+        # `D.<name>` is printed only for the object the ADVERTISED signature shows as default
+        defaults = {p.name: p.default for p in inspect.signature(fn).parameters.values()
+                    if p.default is not inspect.Parameter.empty}
         recv = receiver_for(cls, case["cls"], name)
         for c in case["calls"]:
             pos, kw, labels = make_call(c, recv)
@@ -699,7 +758,9 @@ def real_builder_lines(case):
             iok = "ok"
         except TypeError:
             iok = "err"
-        out.append("ok " + show_recorded(args, kwargs, labels, fn.__globals__["DEFAULTS"]) + " ;; impl " + iok)
+        adv_defaults = {p.name: p.default for p in inspect.signature(fn).parameters.values()
+                        if p.default is not inspect.Parameter.empty}
+        out.append("ok " + show_recorded(args, kwargs, labels, adv_defaults) + " ;; impl " + iok)
     assert len(out) == 2 + ncalls
     return out
 
@@ -829,7 +890,8 @@ def oracle(case):
             viol.append(f"{name}: overflow attribute {meta.init_overflow_attr!r} vs advertised ** parameter: {has_over}")
     if sorted(nested_kw) != sorted(expected) or len(set(nested_kw)) != len(nested_kw):
         viol.append(f"{name}: nested keywords {nested_kw} but the init-enabled attributes of the nested class are {expected}")
-    defaults = fn.__globals__["DEFAULTS"]
+    if case["mkind"] in ("init", "update", "withAttr", "withSeq", "withMap", "withSet") and not viol:
+        viol += behaviour_violations(case)[:6]
     recv = receiver_for(cls, case["cls"], name)
     for c in case["calls"]:
         pos, kw, labels = make_call(c, recv)
@@ -899,7 +961,8 @@ def oracle(case):
             if k2 not in adv.parameters and not has_vk:
                 viol.append(f"{name}{c}: implementation received {k2}, which is not advertised")
         # the real implementation accepts what was forwarded (call through; `_if=False` makes every helper a no-op)
-        if name not in ("__init__", "__spec_class_init__") and "_if" in adv.parameters and "_if" not in kw and c[0] >= 1:
+        if (name not in ("__init__", "__spec_class_init__") and "_if" in adv.parameters
+                and "_if" not in ba.arguments and c[0] >= 1):
             try:
                 r = fn(*pos, **kw, _if=False)
                 if r is not recv:
@@ -910,6 +973,144 @@ def oracle(case):
                 viol.append(f"{name}{c} with _if=False changed the receiver")
         if len(viol) > 8:
             break
+    return viol
+
+
+# --- behaviour level: the value given (FALSY ones included) is what the attribute ends up holding ------
+
+
+BEHAVIOUR = {"checks": 0}
+
+
+def sample_values(tname, desc, nested_classes):
+    """(falsy values, truthy values) that type-check for an attribute of the described type."""
+    parts = tname.split(":")
+    if parts[0] == "int":
+        return [0], [5]
+    if parts[0] == "str":
+        return [""], ["v"]
+    if parts[0] == "nested":
+        return [], []  # spec instances are always truthy; nested keywords are exercised instead
+    if parts[0] == "list":
+        return [[]], ([[3]] if parts[1] == "int" else [])
+    if parts[0] == "dict":
+        return [{}], ([{"k": 3}] if parts[1] in ("int", "any") else [])
+    if parts[0] == "set":
+        return [set()], ([{3}] if parts[1] == "int" else [])
+    return [], []
+
+
+def required_kwargs(desc):
+    """Keyword arguments without which the constructor cannot be called (the key when it has no default)."""
+    k = eff_key(desc)
+    if not k:
+        return {}
+    ka = [a for a in all_attr_descs(desc) if a["name"] == k][0]
+    return {} if ka["default"] else {k: "kv"}
+
+
+def same(a, b):
+    return type(a) is type(b) and a == b
+
+
+def behaviour_violations(case):
+    viol = []
+    desc = case["cls"]
+    cls, nested_classes = build_class(desc)
+    mk = case["mkind"]
+    adescs = {a["name"]: a for a in all_attr_descs(desc)}
+    req = required_kwargs(desc)
+    name = resolve_method_name(cls, case["method"])
+
+    def attempt(label, fn, check):
+        BEHAVIOUR["checks"] += 1
+        try:
+            r = fn()
+        except Exception as e:  # noqa: BLE001
+            viol.append(f"{label}: raised {type(e).__name__}: {e}")
+            return
+        msg = check(r)
+        if msg:
+            viol.append(f"{label}: {msg}")
+
+    if mk in ("init", "update"):
+        ovf = eff_overflow(desc)
+        kws = [a for a in adescs.values() if a["init"] and a["name"] != ovf]
+        singles = []
+        for a in kws:
+            f, t = sample_values(a["type"], desc, nested_classes)
+            singles += [(a["name"], v) for v in f + t]
+        combos = [[s1] for s1 in singles]
+        falsy = [(a["name"], sample_values(a["type"], desc, nested_classes)[0]) for a in kws]
+        falsy = [(n, f[0]) for n, f in falsy if f]
+        combos += [[p, q] for p, q in itertools.combinations(falsy, 2)][:40]
+        for combo in combos:
+            kw = dict(combo)
+            if mk == "init":
+                attempt(f"{desc['name']}({kw})", lambda kw=kw: cls(**{**req, **kw}),
+                        lambda o, kw=kw: next((f"{n} is {getattr(o, n, '<missing>')!r}, not the value given {v!r}"
+                                               for n, v in kw.items() if not same(getattr(o, n, None), v)), None))
+            else:
+                attempt(f"{desc['name']}().update({kw})", lambda kw=kw: cls(**req).update(**kw),
+                        lambda o, kw=kw: next((f"{n} is {getattr(o, n, '<missing>')!r}, not the value given {v!r}"
+                                               for n, v in kw.items() if not same(getattr(o, n, None), v)), None))
+        if ovf and mk == "init":
+            attempt(f"{desc['name']}(zz=0)", lambda: cls(**{**req, "zz": 0}),
+                    lambda o: None if same(getattr(o, ovf, {}).get("zz", "<missing>"), 0) else
+                    f"overflow attribute {ovf} is {getattr(o, ovf, None)!r}")
+        return viol
+    attr = None
+    for pattern, kind, _, nd, an in methods_of(desc):
+        if pattern == case["method"]:
+            attr = an
+    if attr is None or attr not in adescs:
+        return viol
+    a = adescs[attr]
+    parts = a["type"].split(":")
+    recv = lambda: cls(**req)  # noqa: E731
+    if mk == "withAttr":
+        f, t = sample_values(a["type"], desc, nested_classes)
+        for v in f + t:
+            attempt(f"{name}({v!r})", lambda v=v: getattr(recv(), name)(v),
+                    lambda o, v=v: None if same(getattr(o, attr, None), v) else f"{attr} is {getattr(o, attr, '<missing>')!r}")
+            attempt(f"{name}(_new_value={v!r})", lambda v=v: getattr(recv(), name)(_new_value=v),
+                    lambda o, v=v: None if same(getattr(o, attr, None), v) else f"{attr} is {getattr(o, attr, '<missing>')!r}")
+    nd = case.get("nested")
+    if nd is not None and mk in ("withAttr", "withSeq", "withMap", "withSet"):
+        # nested-attribute keywords with falsy values reach the nested object
+        nreq = {x["name"]: ("kv" if x["type"] == "str" else 1) for x in nd["attrs"]
+                if x["init"] and not x["default"] and x["name"] != nd.get("overflow")}
+        for x in nd["attrs"]:
+            if not x["init"] or x["name"] == nd.get("overflow") or x["name"] == "self":
+                continue
+            f, t = sample_values(x["type"], nd, [])
+            for v in f[:1] + t[:1]:
+                kw = {**nreq, x["name"]: v}
+                if mk == "withAttr":
+                    call = lambda kw=kw: getattr(recv(), name)(**kw)  # noqa: E731
+                    get = lambda o: getattr(o, attr)  # noqa: E731
+                elif mk == "withSeq":
+                    call = lambda kw=kw: getattr(recv(), name)(**kw)  # noqa: E731
+                    get = lambda o: getattr(o, attr)[-1]  # noqa: E731
+                elif mk == "withMap":
+                    call = lambda kw=kw: getattr(recv(), name)("key", **kw)  # noqa: E731
+                    get = lambda o: getattr(o, attr)["key"]  # noqa: E731
+                else:
+                    continue  # sets of spec instances need hashable items
+                attempt(f"{name}(**{kw})", call,
+                        lambda o, x=x, v=v, get=get: None if same(getattr(get(o), x["name"], None), v)
+                        else f"nested {x['name']} is {getattr(get(o), x['name'], '<missing>')!r}, not {v!r}")
+    if len(parts) >= 2 and parts[1] == "int":
+        for v in (0, 5):
+            if mk == "withSeq":
+                attempt(f"{name}({v})", lambda v=v: getattr(recv(), name)(v),
+                        lambda o, v=v: None if getattr(o, attr, None) == [v] else f"{attr} is {getattr(o, attr, None)!r}")
+            elif mk == "withMap":
+                attempt(f"{name}('', {v})", lambda v=v: getattr(recv(), name)("", v),
+                        lambda o, v=v: None if getattr(o, attr, None) == {"": v} else f"{attr} is {getattr(o, attr, None)!r}")
+            elif mk == "withSet":
+                attempt(f"{name}({v})", lambda v=v: getattr(recv(), name)(v),
+                        lambda o, v=v: None if getattr(o, attr, None) == {v} else f"{attr} is {getattr(o, attr, None)!r}")
     return viol
 
 
@@ -956,8 +1157,28 @@ def oracle_builder(case):
 # generation
 # ---------------------------------------------------------------------------
 
-def unadvertised_for(desc, nested):
-    names = list(PRIVATE_NAMES) + list(FOREIGN_NAMES)
+def family_names(family):
+    """Init-enabled and other attribute names of EVERY class of the family (and their nested classes)."""
+    out = []
+
+    def visit(d):
+        for a in d["attrs"]:
+            if a["name"] not in out:
+                out.append(a["name"])
+        if d.get("overflow") and d["overflow"] not in out:
+            out.append(d["overflow"])
+        for n in d["nested"]:
+            visit(n)
+        if d.get("base"):
+            visit(d["base"])
+
+    for d in family:
+        visit(d)
+    return out
+
+
+def unadvertised_for(desc, nested, others=()):
+    names = list(PRIVATE_NAMES) + list(FOREIGN_NAMES) + list(others)
     for a in desc["attrs"]:
         names.append(a["name"])  # attributes of the OUTER class (foreign for nested methods, own for own)
         if not a["init"]:
@@ -976,7 +1197,7 @@ def unadvertised_for(desc, nested):
     return out
 
 
-def method_cases(desc, rng, tier):
+def method_cases(desc, rng, tier, others=()):
     cls, _ = build_class(desc)
     for pattern, kind, key_tok, nested, attr in methods_of(desc):
         name = resolve_method_name(cls, pattern)
@@ -987,9 +1208,18 @@ def method_cases(desc, rng, tier):
             for p in adv.parameters.values()
         ]
         advertised = {p["name"] for p in adv_params}
-        un = [u for u in unadvertised_for(desc, nested) if u not in advertised]
-        if tier != "thorough" and len(un) > 8:
-            un = PRIVATE_NAMES[:2] + rng.sample([u for u in un if u not in PRIVATE_NAMES[:2]], 6)
+        un = [u for u in unadvertised_for(desc, nested, others) if u not in advertised]
+        if tier != "thorough" and len(un) > 10:
+            # always kept: private names, init=False attributes (own and nested), overflow attributes
+            keep = list(PRIVATE_NAMES[:2])
+            for d in [desc] + list(desc["nested"]) + ([desc["base"]] if desc.get("base") else []):
+                keep += [a["name"] for a in d["attrs"] if not a["init"]]
+                if d.get("overflow"):
+                    keep.append(d["overflow"])
+            keep = [u for u in dict.fromkeys(keep) if u in un]
+            foreign = [u for u in others if u in un and u not in keep]
+            rest = [u for u in un if u not in keep and u not in foreign]
+            un = keep + rng.sample(foreign, min(4, len(foreign))) + rng.sample(rest, min(3, len(rest)))
         impl = fn.__globals__["implementation"]
         yield {
             "kind": "method", "cls": desc, "method": pattern, "mkind": kind, "key": key_tok,
@@ -1076,20 +1306,34 @@ def gen_cases(tier, rng):
         while True:
             i += 1
             desc = random_class(rng, 1000 + i)
-            for c in method_cases(desc, rng, "quick"):
+            if rng.random() < 0.3:
+                desc = random_derived(rng, 1000 + i, desc)
+            for c in method_cases(desc, rng, "quick", family_names(base_family())):
                 yield c
             for _ in range(20):
                 yield random_builder_case(rng)
         return
     family = base_family()
-    nrandom = 3 if tier == "quick" else 40
-    family += [random_class(rng, i) for i in range(nrandom)]
+    nrandom = 3 if tier == "quick" else 150
+    randoms = [random_class(rng, i) for i in range(nrandom)]
+    family += randoms
+    family += [random_derived(rng, i, b) for i, b in enumerate(randoms[: (1 if tier == "quick" else 40)])]
+    # every class of the family is built, bootstrapped and every helper built BEFORE any call is made,
+    # and the unadvertised names of each method include the attribute names of all the OTHER classes
     for desc in family:
-        yield from method_cases(desc, rng, tier)
-    for _ in range(600 if tier == "quick" else 6000):
+        build_class(desc)
+    others = family_names(family)
+    for desc in family:
+        yield from method_cases(desc, rng, tier, others)
+    for _ in range(600 if tier == "quick" else 20000):
         yield random_builder_case(rng)
-    for _ in range(600 if tier == "quick" else 6000):
+    for _ in range(600 if tier == "quick" else 20000):
         yield random_bind_case(rng)
+
+
+def extra(tier, rng):
+    return {"evaluations": 0, "nontrivial": [], "violations": [], "disagreements": [],
+            "info": {"behaviour_level_checks (value given, falsy included, is what the attribute holds)": BEHAVIOUR["checks"]}}
 
 
 def shrink(case, at=None):
